@@ -289,7 +289,7 @@ def show(t, depth=0):
 
 def _short(name):
     import re
-    return re.sub(r"(?:[a-z_0-9]+::)+(?=[A-Za-z_<{])", "", name)
+    return re.sub(r"(?<![A-Za-z0-9_])(?:[a-z_0-9]+::)+(?=[A-Za-z_<{])", "", name)
 
 
 # ---------------------------------------------------------------- term patterns
